@@ -151,10 +151,20 @@ def maybe_large(rng, ctx, normal, large, p_quick=0.01, p_thorough=0.03):
     strategy (blocks of 2^10 .. 2^20 samples, hundreds to thousands of windows / recordings / grid points).  Counted, so
     that the evidence shows how many such cases ran."""
     p = p_thorough if getattr(ctx, "tier", "quick") == "thorough" else p_quick
-    if rng.random() < p:
+    hit = bool(rng.random() < p)
+    # ... and, so that a run of a given length always holds its share of them whatever the seed: every round(1/p)-th case
+    hit = hit or every_nth(ctx, p)
+    if hit:
         ctx.count("large_size_cases")
         return int(rng.choice(large)), True
     return normal, False
+
+
+def every_nth(ctx, p):
+    """True for the case indices congruent to a fixed phase modulo round(1/p) (replays by index like everything else)."""
+    idx = getattr(ctx, "_idx", None)
+    stride = max(2, int(round(1.0 / max(p, 1e-9))))
+    return idx is not None and idx >= 0 and idx % stride == stride // 3
 
 
 # -- the FORM of array arguments (values unchanged) ---------------------------------------------------------------
